@@ -1,6 +1,8 @@
 import NibabelModel.Model.C14
 import NibabelModel.Lemmas.C14
 import NibabelModel.Lemmas.C14_Progress
+import NibabelModel.Lemmas.C14_Topo
+import NibabelModel.Generated.C14Src
 import NibabelModel.Props.C06
 /-! Props/C14 — the property theorems for C14 "concurrent reads through a shared file handle never mix up
     data" (statements + short proofs; the work is in Lemmas/C14.lean).
@@ -119,6 +121,7 @@ theorem concurrent_eq_single_threaded (L : Nat) (file : List Byte) (progs : Tid 
 /-! ### the programs nibabel produces have the locked shape, and their single-threaded meaning is
     "every read returns `file[o, o+n)`" -/
 
+/-- (glue lemma: simp-unfolding of the program shape `lockedSegs`; used by `wf_pieces`) -/
 theorem wf_lockedSegs (L : Nat) (segs : List (Nat × Nat)) (p : List Action) :
     wf L 0 false (lockedSegs L segs ++ p) = wf L 0 false p := by
   induction segs with
@@ -130,10 +133,12 @@ theorem wf_lockedSegs (L : Nat) (segs : List (Nat × Nat)) (p : List Action) :
     simp only [lockedSegs] at ih
     simp [wf, lockedSegs, ih]
 
+/-- (glue lemma: simp-unfolding of the program shape `lockedWhole`) -/
 theorem wf_lockedWhole (L : Nat) (m r : Bool) (off n : Nat) (p : List Action) :
     wf L 0 false (lockedWhole L m r off n ++ p) = wf L 0 false p := by
   cases m <;> cases r <;> simp [lockedWhole, wf]
 
+/-- (glue lemma: simp-unfolding of the program shape `getFileobjPersist`) -/
 theorem wf_getFileobjPersist (L : Nat) (p : List Action) :
     wf L 0 false (getFileobjPersist ++ p) = wf L 0 false p := by
   simp [getFileobjPersist, wf, Action.slotOnly]
@@ -146,6 +151,7 @@ def segEvents (file : List Byte) (segs : List (Nat × Nat)) : List DEv :=
 def segEnd (file : List Byte) (x : Nat) (segs : List (Nat × Nat)) : Nat :=
   segs.foldl (fun _ sg => sg.1 + (slice file sg.1 sg.2).length) x
 
+/-- (glue lemma: the single-threaded meaning of `lockedSegs`, by unfolding `solo`) -/
 theorem solo_lockedSegs (file : List Byte) (l : Nat) (segs : List (Nat × Nat)) (p : List Action) :
     ∀ x, solo file x (lockedSegs l segs ++ p) = segEvents file segs ++ solo file (segEnd file x segs) p := by
   induction segs with
@@ -164,6 +170,7 @@ def wholeEvents (file : List Byte) (m r : Bool) (off n : Nat) : List DEv :=
   (if m then [.seekEnd, .tell file.length] else []) ++
   (if r then [.seek off, .read n (slice file off n)] else [])
 
+/-- (glue lemma: the single-threaded meaning of `lockedWhole`, by unfolding `solo`) -/
 theorem solo_lockedWhole (file : List Byte) (l : Nat) (m r : Bool) (off n : Nat) (p : List Action)
     (hp : wf l 0 false p = true) (x : Nat) :
     solo file x (lockedWhole l m r off n ++ p) = wholeEvents file m r off n ++ solo file 0 p := by
@@ -188,7 +195,10 @@ def Piece.events (file : List Byte) : Piece → List DEv
   | .whole _ _ m r off n => wholeEvents file m r off n
   | .openPersist => []
 
-/-- `copy()` of a proxy over an open handle uses the source's lock, whatever lock its constructor made -/
+/-- (definitional glue: `Piece.lock` hard-codes `copyLock true`; the statement about `copyLock` itself, for both
+    values of `_has_fh()`, is `copyLock_cases`, and the statement about whole derivation histories is
+    `same_lock_iff_copy_connected`.)  `copy()` of a proxy over an open handle uses the source's lock, whatever
+    lock its constructor made -/
 theorem copy_shares_lock (L fresh : Nat) (c : Bool) : Piece.lock L c fresh = L := by
   cases c <;> simp [Piece.lock, copyLock]
 
@@ -305,6 +315,7 @@ theorem good_getFileobjPersist (L : Nat) (ss : Bool) (p : List Action) :
     good L 0 ss (getFileobjPersist ++ p) = good L 0 true p := by
   simp [getFileobjPersist, good, Action.slotOnly]
 
+/-- (glue lemma: the `good` shape of the nibabel programs, by unfolding) -/
 theorem good_pieces (L : Nat) (ps : List Piece) : ∀ ss, good L 0 ss (ps.flatMap (Piece.prog L)) = true := by
   induction ps with
   | nil => intro ss; simp [good]
@@ -505,7 +516,8 @@ theorem sliced_result_eq_numpy_partial (c : Cfg) (file : List Byte) (idx : List 
 def slicedJob (c : Cfg) (d : Nb.C06.SliceDefs) : Job :=
   ⟨(if c.persist then [Piece.openPersist] else []) ++ [Piece.segs false 0 (natSegs d)], finishSliced c d⟩
 
-/-- the job is exactly what the executable `plan` (the one the driver runs against the real code) produces -/
+/-- (glue lemma, by unfolding `plan`) the job is exactly what the executable `plan` (the one the driver runs
+    against the real code) produces -/
 theorem slicedJob_plan (c : Cfg) (L : Nat) (file : List Byte) (idx : List Nb.C06.IdxItem) (d : Nb.C06.SliceDefs)
     (hw : isWhole idx c.shape = some false)
     (hcalc : Nb.C06.calcSlicedefs (Nb.C06.thresholdHeuristic Gen.skipThresh) idx c.shape c.isz c.off c.order = .ok d) :
@@ -721,5 +733,243 @@ theorem exReq_ok : exReq.OK exCfg (mkFile exCfg) := by
 example : (0 < exCfg.isz ∧ exCfg.off + exCfg.isz * exCfg.shape.prod ≤ exCfg.flen) ∧
     finishSliced exCfg exReq.d (segBytes (mkFile exCfg) (natSegs exReq.d)) = .ok [2] [4, 5] ∧
     [4, 5].map (elemVal exCfg.isz) = [4, 5] := by decide
+
+/-! ### lock topology after sequences of copy() / reshape() / copy.copy() -/
+
+/-- `copy()` (arrayproxy.py `copy`): the new proxy uses the SOURCE's lock iff `file_like` is an open handle
+    (`_has_fh()`), else the lock its own constructor made — both cases. -/
+theorem copyLock_cases (L fresh : Nat) : copyLock true L fresh = L ∧ copyLock false L fresh = fresh := by
+  simp [copyLock]
+
+/-- LOCK TOPOLOGY, any history: proxies are derived from one another by ANY sequence of `copy()`, `reshape()`
+    and `copy.copy()`/unpickling over one open handle (each step from any already existing proxy).  Two of them
+    use the same lock IF AND ONLY IF they are connected by `copy()` edges. -/
+theorem same_lock_iff_copy_connected (ops : List POp) (hv : validOps 1 ops = true) (i j : Nat)
+    (hi : i ≤ ops.length) (hj : j ≤ ops.length) :
+    (proxyLocks true ops).getD i 0 = (proxyLocks true ops).getD j 0 ↔ CopyConn ops i j := by
+  constructor
+  · intro h
+    have a := conn_to_lock ops hv i hi
+    have b := conn_to_lock ops hv j hj
+    rw [h] at a
+    exact .trans a (.symm b)
+  · exact lock_eq_of_conn ops hv
+
+/-- a proxy made by `reshape()` or `copy.copy()`/unpickling shares its lock with NO proxy that existed before
+    (whatever happens later in the history) — although it reads through the same handle -/
+theorem noncopy_takes_new_lock (pre post : List POp) (op : POp) (hop : ∀ s, op ≠ .copy s) (i : Nat)
+    (hi : i ≤ pre.length) :
+    (proxyLocks true (pre ++ [op] ++ post)).getD i 0 ≠ (proxyLocks true (pre ++ [op] ++ post)).getD (pre.length + 1) 0 := by
+  rw [proxyLocks_getD_prefix true (pre ++ [op]) i (by rw [List.length_append]; omega) post,
+      proxyLocks_getD_prefix true (pre ++ [op]) (pre.length + 1) (by rw [List.length_append]; simp) post,
+      proxyLocks_getD_snoc true pre op i hi, proxyLocks_getD_new]
+  have hlt := proxyLocks_lt true pre i
+  cases op with
+  | copy s => exact absurd rfl (hop s)
+  | reshape s => simp only [reshapeLock]; omega
+  | setstate s => simp only [setstateLock]; omega
+
+theorem flatMap_congr' {α β : Type} (l : List α) (f g : α → List β) (h : ∀ a ∈ l, f a = g a) :
+    l.flatMap f = l.flatMap g := by
+  induction l with
+  | nil => rfl
+  | cons a r ih =>
+    simp only [List.flatMap_cons]
+    rw [h a (by simp), ih (fun x hx => h x (by simp [hx]))]
+
+/-- a read request through proxy number `who` of a derivation history -/
+inductive RPiece where
+  | segs (who : Nat) (segs : List (Nat × Nat))
+  | whole (who : Nat) (memmapTry reads : Bool) (off n : Nat)
+
+def RPiece.who : RPiece → Nat
+  | .segs w _ => w
+  | .whole w _ _ _ _ => w
+
+/-- the program nibabel executes for it: the lock is the one `proxyLocks` assigns to that proxy -/
+def RPiece.prog (locks : List Nat) : RPiece → List Action
+  | .segs w sg => lockedSegs (locks.getD w 0) sg
+  | .whole w m r off n => lockedWhole (locks.getD w 0) m r off n
+
+def RPiece.events (file : List Byte) : RPiece → List DEv
+  | .segs _ sg => segEvents file sg
+  | .whole _ m r off n => wholeEvents file m r off n
+
+def RPiece.toPiece : RPiece → Piece
+  | .segs _ sg => .segs false 0 sg
+  | .whole _ m r off n => .whole false 0 m r off n
+
+theorem RPiece.prog_eq (locks : List Nat) (L : Nat) (p : RPiece) (h : locks.getD p.who 0 = L) :
+    p.prog locks = Piece.prog L p.toPiece := by
+  subst h
+  cases p <;> simp [RPiece.prog, RPiece.toPiece, Piece.prog, Piece.lock, RPiece.who]
+
+theorem RPiece.events_eq (file : List Byte) (p : RPiece) : p.events file = Piece.events file p.toPiece := by
+  cases p <;> rfl
+
+/-- `family_reads_correct`: ANY derivation history over one open handle, ANY number of threads, each performing
+    ANY list of sliced / whole-array reads through ANY proxies of ONE copy()-family (all copy-connected to
+    proxy `root`), under ANY schedule: every thread's seeks and reads are a prefix of — and once it finished,
+    exactly — "seek o; read n ↦ file[o, o+n)" for its own segments in its own order. -/
+theorem family_reads_correct (file : List Byte) (ops : List POp) (hv : validOps 1 ops = true) (root : Nat)
+    (pieces : Tid → List RPiece)
+    (hfam : ∀ u, ∀ p ∈ pieces u, CopyConn ops p.who root)
+    (nh : Nat) (p0 : Nat → Nat) (sched : List Tid) (t : Tid) :
+    let s0 := State.init (fun u => (pieces u).flatMap (RPiece.prog (proxyLocks true ops))) nh p0
+    dataProj t (trace file s0 sched) <+: (pieces t).flatMap (RPiece.events file) ∧
+    (((runS file s0 sched).threads t).prog = [] →
+      dataProj t (trace file s0 sched) = (pieces t).flatMap (RPiece.events file)) := by
+  intro s0
+  have hprog : (fun u => (pieces u).flatMap (RPiece.prog (proxyLocks true ops)))
+      = (fun u => ((pieces u).map RPiece.toPiece).flatMap (Piece.prog ((proxyLocks true ops).getD root 0))) := by
+    funext u
+    rw [List.flatMap_map]
+    apply flatMap_congr'
+    intro p hp
+    exact RPiece.prog_eq _ _ p (lock_eq_of_conn ops hv (hfam u p hp))
+  have hev : (pieces t).flatMap (RPiece.events file)
+      = ((pieces t).map RPiece.toPiece).flatMap (Piece.events file) := by
+    rw [List.flatMap_map]
+    apply flatMap_congr'
+    intro p _
+    exact RPiece.events_eq file p
+  have key := nibabel_reads_correct ((proxyLocks true ops).getD root 0) file
+    (fun u => (pieces u).map RPiece.toPiece) nh p0 sched t
+  simp only [← hprog] at key
+  rw [hev]
+  exact key
+
+/-- `copy_family_reads_correct` (the property as stated): the proxies are the original and proxies obtained by
+    ANY sequence of `copy()` calls (two copies of one proxy, a copy of a copy, …) over one open handle; reads
+    through ANY of them, from any number of threads, under any schedule, are correct — no side condition. -/
+theorem copy_family_reads_correct (file : List Byte) (ops : List POp)
+    (hall : ∀ op ∈ ops, ∃ s, op = .copy s) (pieces : Tid → List RPiece)
+    (nh : Nat) (p0 : Nat → Nat) (sched : List Tid) (t : Tid) :
+    let s0 := State.init (fun u => (pieces u).flatMap (RPiece.prog (proxyLocks true ops))) nh p0
+    dataProj t (trace file s0 sched) <+: (pieces t).flatMap (RPiece.events file) ∧
+    (((runS file s0 sched).threads t).prog = [] →
+      dataProj t (trace file s0 sched) = (pieces t).flatMap (RPiece.events file)) := by
+  intro s0
+  have hprog : (fun u => (pieces u).flatMap (RPiece.prog (proxyLocks true ops)))
+      = (fun u => ((pieces u).map RPiece.toPiece).flatMap (Piece.prog 0)) := by
+    funext u
+    rw [List.flatMap_map]
+    apply flatMap_congr'
+    intro p _
+    exact RPiece.prog_eq _ _ p (copy_only_lock_zero ops hall p.who)
+  have hev : (pieces t).flatMap (RPiece.events file)
+      = ((pieces t).map RPiece.toPiece).flatMap (Piece.events file) := by
+    rw [List.flatMap_map]
+    apply flatMap_congr'
+    intro p _
+    exact RPiece.events_eq file p
+  have key := nibabel_reads_correct 0 file (fun u => (pieces u).map RPiece.toPiece) nh p0 sched t
+  simp only [← hprog] at key
+  rw [hev]
+  exact key
+
+/-- OBSERVATION (outside property C14): `copy.copy(proxy)` and unpickling go through `__setstate__`, which
+    installs a NEW `RLock()` while the state dict — for `copy.copy` the very same handle object — is taken
+    over (`setstateLock`).  Same failure as `reshape_new_lock_counterexample`: thread 0 (through the proxy,
+    lock 0) seeks to 0, thread 1 (through the shallow copy, lock 1) seeks to 4, thread 0 reads the bytes
+    at 4.  The correspondence streams `topo`/`random-topo` reproduce exactly this on the real code. -/
+theorem setstate_new_lock_counterexample :
+    let p0 := lockedSegs 0 [(0, 2)]
+    let p1 := lockedSegs (setstateLock 0 1) [(4, 2)]
+    let s0 := cexInit p0 p1
+    ((runS cexFile s0 [0, 0, 1, 1, 0, 0]).threads 0).prog = [] ∧
+    dataProj 0 (trace cexFile s0 [0, 0, 1, 1, 0, 0]) = [.seek 0, .read 2 [14, 15]] ∧
+    solo cexFile 0 p0 = [.seek 0, .read 2 [10, 11]] ∧
+    wf 0 0 false p1 = false := by decide
+
+-- non-vacuity: a history with two copies, a copy of a copy, a reshape of a copy, a copy of the reshaped proxy
+-- and a shallow copy; families {0,1,2,3}, {4,5}, {6}
+def exOps : List POp := [.copy 0, .copy 0, .copy 1, .reshape 3, .copy 4, .setstate 0]
+example : validOps 1 exOps = true ∧ proxyLocks true exOps = [0, 0, 0, 0, 4, 4, 6] ∧
+    proxyLocks false exOps = [0, 1, 2, 3, 4, 5, 6] := by decide
+-- same_lock_iff_copy_connected: proxies 3 and 2 are connected (3 -copy- 1 -copy- 0 -copy- 2) …
+example : CopyConn exOps 3 2 :=
+  .trans (.edge 2 1 rfl) (.trans (.edge 0 0 rfl) (.symm (.edge 1 0 rfl)))
+-- … and proxies 5 and 0 are not (different locks)
+example : ¬ CopyConn exOps 5 0 := fun h =>
+  absurd ((same_lock_iff_copy_connected exOps (by decide) 5 0 (by decide) (by decide)).mpr h) (by decide)
+-- noncopy_takes_new_lock: the reshape in `exOps` (pre = first three steps)
+example : (proxyLocks true ([POp.copy 0, .copy 0, .copy 1] ++ [.reshape 3] ++ [.copy 4, .setstate 0])).getD 3 0 ≠
+    (proxyLocks true ([POp.copy 0, .copy 0, .copy 1] ++ [.reshape 3] ++ [.copy 4, .setstate 0])).getD 4 0 :=
+  noncopy_takes_new_lock _ _ _ (by intro s h; cases h) 3 (by decide)
+-- family_reads_correct: reads through proxies 4 and 5 (the reshaped proxy and its copy), root 4
+example : ∀ p ∈ [RPiece.segs 5 [(0, 2), (4, 2)], .whole 4 true true 2 4], CopyConn exOps p.who 4 := by
+  intro p hp
+  simp only [List.mem_cons, List.not_mem_nil, or_false] at hp
+  rcases hp with rfl | rfl
+  · exact .edge 4 4 rfl
+  · exact .refl 4
+-- copy_family_reads_correct: an all-copy history
+example : ∀ op ∈ [POp.copy 0, .copy 0, .copy 1, .copy 3], ∃ s, op = .copy s := by
+  intro op h
+  simp only [List.mem_cons, List.not_mem_nil, or_false] at h
+  rcases h with rfl | rfl | rfl | rfl <;> exact ⟨_, rfl⟩
+
+/-! ### tie to the source: skeletons regenerated from the AST of the working tree -/
+
+/-- SOURCE TIE: the lock/seek/read skeleton extracted from the AST of the current `fileslice.read_segments`
+    (`Gen.readSegments`, regenerated on every run) IS the model's `lockedSegs`, for every segment list (the
+    empty-list, single-segment and multi-segment branches of the source all collapse to it) … -/
+theorem gen_readSegments_eq (l : Nat) (segs : List (Nat × Nat)) :
+    Gen.readSegments (some l) segs = lockedSegs l segs := by
+  unfold Gen.readSegments lockedSegs
+  match segs with
+  | [] => simp
+  | [a] => simp [Gen.lockAcq, Gen.lockRel]
+  | a :: b :: r => simp [Gen.lockAcq, Gen.lockRel]
+
+/-- … and without a lock (`lock=None` → `_NullLock`) it is the `unlocked` program of
+    `no_lock_counterexample`. -/
+theorem gen_readSegments_nolock_eq (l : Nat) (segs : List (Nat × Nat)) :
+    Gen.readSegments none segs = unlocked (lockedSegs l segs) := by
+  have h : ∀ s : List (Nat × Nat), unlocked (lockedSegs l s) = s.flatMap (fun sg => [.seek sg.1, .read sg.2]) := by
+    intro s
+    induction s with
+    | nil => rfl
+    | cons a r ih =>
+      have e : lockedSegs l (a :: r) = [.acquire l, .seek a.1, .read a.2, .release l] ++ lockedSegs l r := by
+        simp [lockedSegs]
+      rw [e]
+      simp only [unlocked, List.filter_append] at ih ⊢
+      rw [ih]
+      simp [List.filter]
+  rw [h]
+  unfold Gen.readSegments
+  match segs with
+  | [] => simp
+  | [a] => simp [Gen.lockAcq, Gen.lockRel]
+  | a :: b :: r => simp [Gen.lockAcq, Gen.lockRel]
+
+/-- SOURCE TIE: the lock rules extracted from `ArrayProxy.copy` / `__getstate__`+`__setstate__` / `reshape`
+    are the model's `copyLock` / `setstateLock` / `reshapeLock` (on which the topology theorems rest). -/
+theorem gen_lock_rules_eq :
+    (∀ h s f, Gen.copyLock h s f = copyLock h s f) ∧ (∀ s f, Gen.setstateLock s f = setstateLock s f) ∧
+    (∀ s f, Gen.reshapeLock s f = reshapeLock s f) := by
+  refine ⟨fun h s f => ?_, fun s f => ?_, fun s f => ?_⟩
+  · cases h <;> simp [Gen.copyLock, copyLock]
+  · simp [Gen.setstateLock, setstateLock]
+  · simp [Gen.reshapeLock, reshapeLock]
+
+/-- the actions of `array_from_file` (hand model; `np.memmap` attempt, then `seek; readinto`) -/
+def arrayFromFileActs (memmapTry reads : Bool) (off n : Nat) : List Action :=
+  (if memmapTry then [.seekEnd, .tell] else []) ++ (if reads then [.seek off, .read n] else [])
+
+/-- SOURCE TIE: the two branches of the current `ArrayProxy._get_unscaled` — whole-array: `_get_fileobj()`
+    entered first, then the proxy lock around ALL of `array_from_file`; sliced: the proxy lock is handed to
+    `fileslice`, which hands it to `read_segments` — compose to exactly the programs `plan` uses. -/
+theorem gen_getUnscaled_eq (l : Nat) (pre : List Action) (m r : Bool) (off n : Nat) (segs : List (Nat × Nat)) :
+    Gen.getUnscaledWhole l pre (arrayFromFileActs m r off n) = pre ++ lockedWhole l m r off n ∧
+    Gen.getUnscaledSliced l pre (fun lk => Gen.readSegments (Gen.filesliceLock lk) segs) = pre ++ lockedSegs l segs := by
+  constructor
+  · simp [Gen.getUnscaledWhole, arrayFromFileActs, lockedWhole]
+  · simp only [Gen.getUnscaledSliced, Gen.filesliceLock, gen_readSegments_eq]
+
+example : Gen.readSegments (some 3) [(0, 2), (4, 2)] = lockedSegs 3 [(0, 2), (4, 2)] ∧
+    Gen.readSegments (some 3) [(5, 1)] = [.acquire 3, .seek 5, .read 1, .release 3] := by decide
 
 end Nb.C14
